@@ -192,6 +192,9 @@ EnvKeyShapes == {"emptyMapKey", "doubleUnderscore", "lowercaseMapKey", "mixedCas
                  "structExact", "mapExact", "listExactNonEmpty", "unknownVar", "prefixOnly", "nullEntryThenEnv",
                  "emptyEntryThenEnv", "permissionsNested", "legacyPrefix", "bothPrefixes", "equalsInValue"}
 
+\* environment variables whose name continues after a complete parameter name
+EnvSuffixes == {"_X", "_0", "_0_X", "__"}
+
 \* ------------------------------------------------------------------ specification
 Init == c \in Universe
 Next == UNCHANGED vars
@@ -217,4 +220,6 @@ EmitShapes ==
         /\ \A fk \in FieldKinds, v \in EnvScalarVals : Emit("SHAPE", [class |-> "envValue", kind |-> fk, val |-> v])
         /\ \A e \in EnvListElems, p \in BOOLEAN : Emit("SHAPE", [class |-> "envEmptyList", elem |-> e, ptr |-> p])
         /\ \A s \in EnvKeyShapes : Emit("SHAPE", [class |-> "envKey", shape |-> s])
+        /\ \A fk \in FieldKinds, sf \in EnvSuffixes, ex \in BOOLEAN :
+               Emit("SHAPE", [class |-> "envSuffix", kind |-> fk, suffix |-> sf, withExact |-> ex])
 =============================================================================
